@@ -430,6 +430,7 @@ def _r3_structural(run: Run, src, patterns=True):
     ex = src.cls('Excel')
     fi = ex.methods.get('_get_suspicious_constructions')
     loc = loc_of(fi.module.path, fi.node)
+    from .common import flat_conditions
     # the reader: every non-empty cell is tested, entered iff non-empty -- decided by the evaluated reader when it can be followed
     sub_ = Run('tmp', run.tier, run.seed, quiet=True)
     try:
